@@ -1,17 +1,17 @@
 """C03 — a synchronised pipeline computes the composition of its filters, frame for frame."""
 import logging
 from ..core import Violation
-from .. import pipeline, recvfeed, protocol
+from .. import pipeline, recvfeed, protocol, edgefeed
 
 ID = 'C03'
-PROP_FILES = ['C03', 'C03Join', 'C03JoinMulti']
-MODULES = ['OFModel.Zmq.Receiver', 'OFModel.Zmq.Sender', 'OFModel.FilterLoop', 'OFModel.Gen.Facts']
+PROP_FILES = ['C03', 'C03Join', 'C03JoinMulti', 'EdgeRecv', 'EdgeSend', 'C03Edge', 'C03EdgeLive']
+MODULES = ['OFModel.Zmq.Receiver', 'OFModel.Zmq.Sender', 'OFModel.Zmq.Pair', 'OFModel.Zmq.PairReq', 'OFModel.FilterLoop', 'OFModel.Gen.Facts']
 RULE = ('MQNet pipelines (real MQ/ZMQSender/ZMQReceiver objects, thread-less event loop, virtual time): topologies drawn from chain / tee / tee-rejoin (2-3 branches) / '
         'independent join with 3-7 filters, behaviours from {pass, None on chosen ids (not on rejoined branches), {}, lone Frame, callable, add/rename topic}, '
         'processing times 0-300 ms (incl. slower than the 100 ms poll interval), all subscription forms, every consumer listed as required, message delays 0-90 ms. '
         'Oracle: what every process() was handed equals the composition of the upstream process functions on the source sequence (no frame lost from the first one on, '
         'none duplicated / reordered / altered); deferred results evaluated only in the publishing send.  Every receiver instance is traced and replayed through '
-        'OF.Recv.call0; Filter.process_frames is compared with OF.Loop.processFrames.  non-trivial = a run in which at least one relay skipped, deferred or re-shaped frames.  Multi-topic join oracle (the statement of C03_join_complete_multi on the real ZMQReceiver): well-formed wire feeds of 1-3 synchronised sources publishing blocks of 1-4 topics (hidden topics, topics whose frame has another frame as prefix) under all-topics / * / explicit subset+remap subscriptions, delivered FIFO per source and interleaved with recv(timeout=0) calls in random poll orders: every returned set holds, for every source, exactly the subscribed topics of the block of that source for the returned id under the mapped names, the id is common to all sources, ids increase; the same feeds are replayed through OF.Recv.call0')
+        'OF.Recv.call0; Filter.process_frames is compared with OF.Loop.processFrames.  non-trivial = a run in which at least one relay skipped, deferred or re-shaped frames.  Multi-topic join oracle (the statement of C03_join_complete_multi on the real ZMQReceiver): well-formed wire feeds of 1-3 synchronised sources publishing blocks of 1-4 topics (hidden topics, topics whose frame has another frame as prefix) under all-topics / * / explicit subset+remap subscriptions, delivered FIFO per source and interleaved with recv(timeout=0) calls in random poll orders: every returned set holds, for every source, exactly the subscribed topics of the block of that source for the returned id under the mapped names, the id is common to all sources, ids increase; the same feeds are replayed through OF.Recv.call0.  EDGE refinement (stage B, the statements of C03_edge_no_loss / _publish_only_when_heard / _one_ahead / _progress on the real classes): a real ZMQSender(outs_required=[R]) driven like a source filter (the same frame {main:[k]} offered with state None until send returns a state) and a real ZMQReceiver R on the fake pyzmq whose SUB socket starts NOT connected (everything published is lost for it, requests get through); random schedules of send / recv / connect (early, late, never; clock steps beyond ZMQ_CONN_TIMEOUT) / requests of a second client X (ephemeral: any id; synchronised: ids already published); oracle keys edge-frame-lost (what recv returned is not frames 0,1,2,... with their own payloads from the very first one), edge-published-unheard, edge-more-than-one-ahead (pair alone), edge-no-progress (pair alone, connection up: [recv,send,recv,send,recv] returns the next frame); every schedule is replayed through OF.PairReq.step (driver op pairreq.run) and compared event by event (PUB messages and delivery, send result, requests, recv result, client table, ids, pending frame number, buffers, channel lengths); the two negative witnesses (required=[] with a second client; new flag stripped from the requests) are run on the real classes on every run and must trip edge-frame-lost')
 ASSUMPTIONS = ['partial: stage A component theorems are proved (publish-or-discard, deferred-at-send, id carry, normalisation; with C01/C02/C05 receiver invariants) and the join-completeness '
                'theorem A1 both in its single-topic form (C03_join_complete_partial) and for MULTI-TOPIC blocks (C03_join_complete_multi, OFProps/C03JoinMulti.lean): non-balanced receiver, all sources '
                'synchronised, each publishing per id a block of n >= 1 distinct non-empty topics (hidden ones included) followed by the heartbeat, every message carrying topics = ts; subscription per source '
@@ -20,7 +20,16 @@ ASSUMPTIONS = ['partial: stage A component theorems are proved (publish-or-disca
                'of exactly one frame per subscribed topic of that source\'s block of the returned id (never a partial block), all carrying the returned id, the payload of the wire message and the mapped name, '
                '(ii) the returned ids are exactly the ids published by every source, none skipped below the frontier.  Hypothesis on the network: the block as delivered = the sent block filtered by the SUB prefixes '
                '(IsBlock / isBlock_of_sent; frames are abstracted through decodeTopic, the ZeroMQ prefix match itself is not modelled).  NOT proved: ephemeral side sources, balanced receivers, recv(state) jumps, '
-               'an explicit subscription with an empty list, progress (liveness), and the edge/DAG refinements (B, C) - the pipeline level is explored, with the composition reference as oracle',
+               'an explicit subscription with an empty list, progress (liveness) of joins, and the DAG refinement (C) - the pipeline level is explored, with the composition reference as oracle',
+               'EDGE refinement (stage B) PROVED on the closed edge model OFModel/Zmq/PairReq.lean (OFProps/C03Edge.lean, C03EdgeLive.lean, helper files EdgeRecv/EdgeSend): one source-filter publisher with '
+               'outs_required=[R], one synchronised all-topics consumer R, a flag subUp (PUB/SUB connection established; while false every publish is lost for R, requests always get through; connectSub at any time, late or never), '
+               'a second client X sending any ephemeral request / any synchronised request for an already published id at any time; single topic main per frame set, frame k has payload k; every call has timeout 0; no restarts; '
+               'delivery of what is not lost is immediate and FIFO.  For EVERY schedule (no length bound, any clock readings incl. evictions): C03_edge_no_loss / C03_edge_no_loss_run (recv has returned exactly frames 0..n-1, id k with payload k; '
+               'publisher published exactly 0..m-1, n <= m, pending frame = m, nothing discarded), C03_edge_one_ahead (pair alone: m <= n+1; with a second client FALSE in the code: a consumer silent beyond ZMQ_CONN_TIMEOUT is evicted while the other '
+               'client\'s request is evaluated and one more set goes out - do_send is computed from client_ids taken before the eviction loop), inv_step + C03_edge_publish_only_when_heard / _hello_only_before_heard / _new_until_heard / '
+               '_tracked_only_when_heard (handshake invariant, every event), C03_edge_progress (pair alone, connection up: [recv, send, recv, send, recv] returns frame n; a schedule is exhibited, fairness not proved), kernel-evaluated negative witnesses '
+               'C03_edge_needs_required (required=[] + second client) and C03_edge_needs_new_flag (new flag dropped, pair alone) on the same step function, and C03_edge_pair_alone_any_required (in the pair ALONE outs_required is never exercised: '
+               'nothing is published before some client is tracked and the only client is tracked only after it heard).  NOT modelled there: MQ.send wrapping frames in a callable (stage A3), multi-topic blocks, HWM, several consumers as full automata, restarts',
                'MQNet replaces Filter.loop_once by a 10-line replica around the real MQ object (every call timeout=0, re-armed each poll interval or on arrival); libzmq by the in-process fake',
                'message delays below the 100 ms request interval, lossless channels, no restarts (C03 hypotheses)']
 TRUSTED = ['composition reference = the same Python process functions applied to the source sequence (harness/ofverif/pipeline.py: reference)']
@@ -141,6 +150,63 @@ def multi_join_campaign(ctx, n):
     res.extra['multi_join_feeds_with_multi_topic_blocks_returned'] = nmulti
 
 
+def edge_campaign(ctx, n):
+    """Stage B on the closed edge with the slow joiner: real ZMQSender(outs_required=['R']) + real ZMQReceiver vs OF.PairReq event by event;
+    oracles = the statements of C03_edge_no_loss / _publish_only_when_heard / _one_ahead / _progress on the real objects."""
+    res, rng = ctx.result, ctx.rng
+    trials = [dict(c['trial'], tail=None) for c in ctx.corpus if c.get('feed') == 'edge']
+    if ctx.replay and ctx.replay.get('case', {}).get('feed') == 'edge':
+        trials = [dict(ctx.replay['case']['trial'])]; n = 0
+    for i in range(n):
+        other = 0.0 if i % 2 == 0 else rng.choice([0.1, 0.25, 0.4])
+        trials.append({'variant': dict(edgefeed.REAL), 'evs': edgefeed.gen_schedule(rng, other), 'progress': True, 'tail': None})
+    obs = [edgefeed.run_impl(t) for t in trials]
+    model = ctx.driver.batch([edgefeed.model_request(t) for t in trials]) if ctx.driver and trials else None
+    stats = {'trials': len(trials), 'with_second_client': 0, 'late_or_never_connect': 0, 'never_connect': 0, 'frames_returned': 0, 'hellos_lost': 0,
+             'progress_tails': 0, 'events': 0}
+    for idx, (t, o) in enumerate(zip(trials, obs)):
+        evs = t['evs'] + t['tail']
+        ups = [i for i, e in enumerate(t['evs']) if e['k'] == 'up']
+        nret = len(o[-1][1]['rets']) if o else 0
+        lost = sum(1 for (x, _) in o if x['k'] == 'sent' and not x['delivered'] and any(y['k'] == 'hello' for y in x['outs']))
+        stats['with_second_client'] += any(e['k'] == 'other' for e in evs)
+        stats['late_or_never_connect'] += (not ups or ups[0] >= 4); stats['never_connect'] += (not ups)
+        stats['frames_returned'] += nret; stats['hellos_lost'] += lost; stats['progress_tails'] += bool(t['tail']); stats['events'] += len(evs)
+        res.note({'feed': 'edge', 'events': len(evs), 'connect_at': ups[:1], 'returned': nret, 'hellos_lost': lost}, nontrivial=bool(lost and nret))
+        case = {'feed': 'edge', 'trial': {k: t[k] for k in ('variant', 'evs', 'progress', 'tail')}}
+        for key, what in edgefeed.oracles(t, o)[:1]:
+            res.violations.append(Violation(key, what, case))
+        if model is not None:
+            r = model[idx]
+            if 'err' in r:
+                res.disagreements.append({'point': 'pairreq.run', 'case': case, 'impl': None, 'model': r}); continue
+            m = edgefeed.canon_model(r)
+            io = [(a, b) for a, b in o]
+            if m != io:
+                ci = next((i for i, (a, b) in enumerate(zip(io, m)) if a != b), min(len(io), len(m)))
+                res.disagreements.append({'point': f'edge event #{ci} ({evs[ci]["k"] if ci < len(evs) else "?"}): real ZMQSender/ZMQReceiver on the slow-joiner fake vs OF.PairReq.step',
+                                          'case': case, 'impl': io[ci] if ci < len(io) else None, 'model': m[ci] if ci < len(m) else None})
+            else: res.traces_validated += 1
+    # the negative witnesses on the REAL classes: the oracle must fire (it is not blind), the model must agree with the code there too
+    wit = {}
+    if not ctx.replay:
+        for t in edgefeed.witnesses():
+            o = edgefeed.run_impl(t)
+            keys = [k for k, _ in edgefeed.oracles(t, o)]
+            agree = None
+            if ctx.driver:
+                r = ctx.driver.batch([edgefeed.model_request(t)])[0]
+                agree = ('err' not in r) and edgefeed.canon_model(r) == [(a, b) for a, b in o]
+                if not agree: res.disagreements.append({'point': f'negative witness "{t["name"]}": real classes vs OF.PairReq.step', 'case': {'feed': 'edge', 'trial': t}, 'impl': None, 'model': None})
+                else: res.traces_validated += 1
+            wit[t['name']] = {'oracle_keys': keys, 'first_returned': (o[-1][1]['rets'] or [None])[0], 'model_agrees': agree}
+            if 'edge-frame-lost' not in keys:
+                res.disagreements.append({'point': f'negative witness "{t["name"]}" does not lose the first frame on the real classes (oracle blind or code changed)',
+                                          'case': {'feed': 'edge', 'trial': t}, 'impl': keys, 'model': ['edge-frame-lost']})
+    stats['negative_witnesses_on_real_classes'] = wit
+    res.extra['edge'] = stats
+
+
 def run(ctx):
     logging.disable(logging.CRITICAL)
     res, rng = ctx.result, ctx.rng
@@ -151,7 +217,7 @@ def run(ctx):
     seeds = [c.get('net_seed', 0) for c in ctx.corpus if 'topo' in c]
     if ctx.replay and ctx.replay.get('case', {}).get('topo'):
         topos = [ctx.replay['case']['topo']]; seeds = [ctx.replay['case'].get('net_seed', 0)]; n = 0
-    if ctx.replay and ctx.replay.get('case', {}).get('feed') == 'recvmulti':
+    if ctx.replay and ctx.replay.get('case', {}).get('feed') in ('recvmulti', 'edge'):
         topos, seeds, n = [], [], 0
     for _ in range(n):
         topos.append(pipeline.gen_topology(rng, c03=True)); seeds.append(rng.randrange(10**9))
@@ -178,6 +244,8 @@ def run(ctx):
                 res.disagreements.append({'point': f'MQNet receiver trace of node {name}, call #{ci} vs OF.Recv.call0', 'case': case,
                                           'impl': tr.obs[ci] if ci >= 0 else None, 'model': m[ci] if ci >= 0 and isinstance(m, list) else m})
             else: res.traces_validated += 1
+    # stage B: the edge refinement on the closed pair with the PUB/SUB slow joiner
+    edge_campaign(ctx, 8000 if ctx.thorough else (2500 if ctx.escalate else 800))
     # multi-topic join: the statement of C03_join_complete_multi on the real receiver
     multi_join_campaign(ctx, 4000 if ctx.thorough else (1200 if ctx.escalate else 400))
     # process_frames / MQ.send shortcut vs OF.Loop
